@@ -47,6 +47,20 @@ def run(F, rep):
             rep.ob("C17-R7", o["instance"], o["ok"], detail=o["detail"], site=o["site"], how=o["how"], key=o["key"].replace(o["rule"], "C17-R7/" + o["rule"][4:]))
     rep.floor("C17-R7", n7, 8, "reader-state clauses shared with C08 (sample writers, contig tables, loader)")
 
+    # ------------------------------------------------------------ R9: create stores every input as its own sample
+    # `ragc create a.fa b.fa c.fa` exiting 0 must mean three samples: the per-file sample name must not merge inputs whose
+    # names differ, nor depend on the compression suffix (C19-G5's evaluation of the name derivation, shared)
+    from rules import c19
+    sub = type(rep)(rep.pid, rep.tier)
+    sub.cfg = getattr(rep, "cfg", "dev")
+    c19.g5_rule(F, sub)
+    n9 = 0
+    for o in sub.obligations:
+        if o["rule"] == "C19-G5":
+            n9 += 1
+            rep.ob("C17-R9", o["instance"], o["ok"], detail=o["detail"], site=o["site"], how=o["how"], key=o["key"].replace("C19-G5", "C17-R9"))
+    rep.floor("C17-R9", n9, 2, "sample-name derivation clauses shared with C19")
+
     # ------------------------------------------------------------ R8: buffered output is flushed before success is reported
     # A BufWriter / LineWriter dropped with data still in its buffer writes it in Drop and throws the error away, so
     # the command would exit 0 with a truncated file.  Every local of a command body whose type owns such a buffer must,
